@@ -38,8 +38,14 @@ def main():
         rc, out = sh(["git", "-C", str(wt), "apply", str(sd / "patch.diff")])
         res["patch_applies"] = rc == 0
         if rc != 0:
-            res["error"] = out
-            return finish(a, sd, res)
+            # the patch was written against an earlier HEAD of /repo: retry with a 3-way / fuzzy apply
+            rc, out2 = sh(["git", "-C", str(wt), "apply", "--3way", str(sd / "patch.diff")])
+            if rc != 0:
+                rc, out2 = sh(["patch", "-p1", "-d", str(wt), "-i", str(sd / "patch.diff")])
+            res["patch_applies"] = rc == 0
+            if rc != 0:
+                print(json.dumps({"seed": a.seed_id, "error": "patch does not apply to the current HEAD; previous meta kept"}))
+                return
         if not a.skip_tests:
             rc, out = sh([py, "-m", "pytest", "-q", "-p", "no:cacheprovider", "-x"], cwd=wt)
             res["pytest"] = {"exit": rc, "summary": out.strip().splitlines()[-1] if out.strip() else ""}
